@@ -215,7 +215,8 @@ def run(c, chk):
                         pos = flatten(x[1], base)
                         if pos is None:
                             continue
-                        nonzero = (cn[1] == 'ne' and cn[3][1] == 0 and t) or (cn[1] == 'eq' and cn[3][1] != 0 and t) or (cn[1] == 'eq' and cn[3][1] == 0 and not t)
+                        nonzero = (cn[1] == 'ne' and cn[3][1] == 0 and t) or (cn[1] == 'eq' and cn[3][1] != 0 and t) or (cn[1] == 'eq' and cn[3][1] == 0 and not t) \
+                            or (cn[1] == 'ne' and cn[3][1] != 0 and not t)       # "not different from 'x'" is equal to 'x'
                         if nonzero:
                             shown.add(tuple(sorted(repr(sym.norm(y)) for y in pos)))
                     if len(shown) < k:
